@@ -1413,3 +1413,52 @@ def rule_set_members_keep_spec(ctx):
                            'own tags and the type rejects the encoding' % norm(spec) if not ok else 'asn1Spec[idx]', node=c)
     if n < 1:
         raise AnalysisError('C13.setspec: schema arm of %s not found' % f.short)
+
+
+def rule_any_catch_all(ctx):
+    """A6.anymap: the tag map of an ANY - tagged or not - has the ANY itself as its default type: whatever comes next on the
+    wire belongs to it.  The canonical SET encoders write the elements of a SET OF / SEQUENCE OF of tagged ANY without the
+    ANY's own tag and rely on this when the value is read back."""
+    f = ctx.func('type.univ.Any.tagMap')
+    calls = [c for c in walk_own(f.node) if isinstance(c, ast.Call) and norm(c.func).endswith('TagMap')]
+    if not calls:
+        raise AnalysisError('TagMap construction not found in %s' % f.short)
+    for c in calls:
+        default = c.args[2] if len(c.args) > 2 else next((k.value for k in c.keywords if k.arg == 'defaultType'), None)
+        ok = default is not None and norm(default) == 'self'
+        ctx.ob('A6.anymap', f, '`%s` has the ANY as its default type' % norm(c)[:50], ok,
+               'no default type: a tagged ANY accepts only its own tag, and the untagged elements that CER / DER write for a SET OF of '
+               'tagged ANY inside a SET are refused' if not ok else 'defaultType = self', node=c)
+
+
+def rule_oid_text_arcs(ctx):
+    """W.oidtext: the dotted text of an OBJECT IDENTIFIER is cut at the dots and every non-empty piece is converted with
+    `int()` as it stands: the pieces are not trimmed or rewritten first (an arc written `0` must stay an arc)."""
+    n = 0
+    for q in ('type.univ.ObjectIdentifier.prettyIn', 'type.univ.RelativeOID.prettyIn'):
+        try:
+            f = ctx.func(q)
+        except Exception:
+            continue
+        par = f.params()[1]
+        for comp in walk_own(f.node):
+            if not isinstance(comp, (ast.ListComp, ast.GeneratorExp)):
+                continue
+            ints = [c for c in ast.walk(comp.elt) if isinstance(c, ast.Call) and norm(c.func) == 'int']
+            if not ints:
+                continue
+            it = comp.generators[0].iter
+            tgt = comp.generators[0].target
+            textual = 'split(' in norm(it) or (isinstance(it, ast.Name) and any(
+                isinstance(a_, ast.Assign) and norm(a_.targets[0]) == it.id and 'split(' in norm(a_.value) for a_ in walk_own(f.node)))
+            if not textual:
+                continue
+            n += 1
+            direct = isinstance(it, ast.Call) and isinstance(it.func, ast.Attribute) and it.func.attr == 'split' and norm(it.func.value) == par
+            plain = all(len(c.args) == 1 and isinstance(c.args[0], ast.Name) and isinstance(tgt, ast.Name) and c.args[0].id == tgt.id for c in ints)
+            ok = direct and plain
+            ctx.ob('W.oidtext', f, 'arcs of the dotted text go to int() as written', ok,
+                   'the pieces are `%s` / converted as `%s`: an arc that is rewritten before the conversion can vanish (`2.0.1` read as 2.1)' % (
+                       norm(it)[:40], norm(ints[0])[:30]) if not ok else '%s.split(\'.\')' % par, node=comp)
+    if n < 1:
+        raise AnalysisError('W.oidtext: text arm not found')
